@@ -376,6 +376,20 @@ def prepare(case_dec, allow_empty=False):
             warnings.simplefilter("ignore")
             return realify(ncall(unrealify(xf, x0)))
 
+    if case_dec.get("point", "regular") == "regular" and not allow_empty:
+        # a regular point has a neighbourhood inside the domain: the raw function must stay finite (and keep its
+        # shape) a small step away in a dense direction, e.g. x**p is not a function of p near p=2 for x<0
+        try:
+            xf0 = realify(x0)
+            dvec = onp.cos(onp.arange(1, xf0.size + 1) * 1.7) + 0.31
+            hh = 1e-4 * max(1.0, float(onp.max(onp.abs(xf0))) if xf0.size else 1.0)
+            with onp.errstate(all="ignore"):
+                for sgn in (1.0, -1.0):
+                    yn = F(xf0 + sgn * hh * dvec)
+                    if yn.shape != realify(y0).shape or not onp.all(onp.isfinite(yn)):
+                        return None, Outcome("not_judged", "irregular_point", detail="raw function not finite next to the point")
+        except Exception:
+            return None, Outcome("not_judged", "irregular_point", detail="raw function fails next to the point")
     return (ncall, acall, x0, y0, F), None
 
 
